@@ -8,6 +8,7 @@ JSON field names / field sources of Trash and Pull. An edit to any of them break
 -/
 import ArvVerif.Gen.FactsC05
 import ArvVerif.Model.C05
+import ArvVerif.Model.C05_Run
 namespace ArvVerif.Tie.C05
 open ArvVerif.Facts.C05
 
@@ -218,5 +219,68 @@ theorem tie_computeCalls : computeCalls =
    "bal.BlockStateMap.Apply",
    "bal.balanceBlock",
    "bal.collectStatistics"] := rfl
+
+/-! ## the sweep around balanceBlock (Model/C05_Run.lean) -/
+
+/-- sdk/go/arvados `KeepService.index`: the one place where an index timestamp is rescaled — below
+1e12 it is taken to be in seconds and multiplied by 1e9 (Model `normMtime`, `secondsThreshold`,
+`nsPerSecond`); the test sits between the ParseInt error check and the end-of-response checks. -/
+theorem tie_indexMtime :
+    indexAssigns = ["mtime, err := strconv.ParseInt(fields[1], 10, 64)", "mtime = mtime * 1e9"] ∧
+    indexConds.filter (fun c => c != "if err != nil" && c != "if sawEOF" && c != "if !sawEOF" && c != "if line == \"\"" &&
+        c != "for scanner.Scan()" && c != "if scanner.Err() != nil" && c != "if resp.StatusCode != 200") =
+      ["if len(fields) != 2", "if mtime < 1e12"] ∧
+    ArvVerif.C05.secondsThreshold = 10 ^ 12 ∧ ArvVerif.C05.nsPerSecond = 10 ^ 9 := by
+  refine ⟨rfl, by decide, by decide, by decide⟩
+
+/-- collection.go `EachCollection`: the attributes it selects are the model's `selectedAttrs`, and
+whether `storage_classes_desired` is among the string literals of the function is the model's
+`selClassesNow` (false in the current code: keep-balance is never told the classes — F05b). -/
+theorem tie_select :
+    (ArvVerif.C05.selectedAttrs.all fun a => eachCollectionStrings.contains a) = true ∧
+    eachCollectionStrings.contains "storage_classes_desired" = ArvVerif.C05.selClassesNow := by
+  refine ⟨by decide, by decide⟩
+
+/-- `GetCurrentState`: MinMtime = now − TTL (nanoseconds); default replication from the discovery
+document; the equivMount bookkeeping (first mount seen for a non-blank device represents it, every
+mount is appended to its representative's list — Model `delivered`'s `rep`); one IndexMount per
+list, AddReplicas for every mount of the list; collections go through addCollection. -/
+theorem tie_getState :
+    getStateAssigns =
+      ["bal.DefaultReplication = dd.DefaultCollectionReplication",
+       "bal.MinMtime = time.Now().UnixNano() - dd.BlobSignatureTTL*1e9",
+       "equivMount := map[*KeepMount][]*KeepMount{}",
+       "equiv := deviceMount[mnt.DeviceID]",
+       "equiv = mnt",
+       "deviceMount[mnt.DeviceID] = equiv",
+       "equivMount[equiv] = append(equivMount[equiv], mnt)"] ∧
+    getStateCalls = ["mounts[0].KeepService.IndexMount", "bal.BlockStateMap.AddReplicas", "bal.addCollection",
+      "EachCollection"] ∧
+    getStateConds.filter (fun c => c != "if err != nil" && c != "if len(errs) > 0" && c != "if err != nil || len(errs) > 0") =
+      ["if equiv == nil", "if mnt.DeviceID != \"\""] := by
+  refine ⟨rfl, rfl, by decide⟩
+
+/-- `addCollection` (Model `collOp`): replication_desired or the cluster default; the pdh is passed on
+only when a lost-blocks file is written; one IncreaseDesired for the blocks of the manifest. -/
+theorem tie_addCollection :
+    addCollectionAssigns =
+      ["blkids, err := coll.SizedDigests()", "repl := bal.DefaultReplication", "repl = *coll.ReplicationDesired",
+       "pdh := \"\"", "pdh = coll.PortableDataHash"] ∧
+    addCollectionConds = ["if err != nil", "if coll.ReplicationDesired != nil", "if bal.LostBlocksFile != \"\""] ∧
+    addCollectionCalls = ["coll.SizedDigests", "bal.BlockStateMap.IncreaseDesired"] := by
+  refine ⟨rfl, rfl, rfl⟩
+
+/-- `Run`: the commit options guard ClearTrashLists, CommitPulls and CommitTrash (Model `clearCount`,
+`sentList`), in this order; `CheckSanityLate` (Model `sanityLate`) tests collections scanned, any
+desired > 0, default replication ≥ 1 in this order; what is PUT is the service's own change set. -/
+theorem tie_run :
+    runConds.filter (fun c => c != "if err != nil" && c != "if lbFile != nil" && c != "if bal.LostBlocksFile != \"\"" &&
+        c != "if runOptions.SafeRendezvousState != \"\"") =
+      ["if runOptions.CommitTrash && rs != runOptions.SafeRendezvousState", "if runOptions.CommitPulls",
+       "if runOptions.CommitTrash"] ∧
+    sanityLateConds = ["if bal.errors != nil", "if bal.collScanned == 0", "if desired > 0", "if !anyDesired", "if dr < 1"] ∧
+    commitTrashReturns = ["srv.put(ctx, c, \"trash\", srv.ChangeSet.Trashes)"] ∧
+    commitPullsReturns = ["srv.put(ctx, c, \"pull\", srv.ChangeSet.Pulls)"] := by
+  refine ⟨by decide, rfl, rfl, rfl⟩
 
 end ArvVerif.Tie.C05
